@@ -268,6 +268,50 @@ def p45_paths_and_compare(binfns, consts):
     return [O._finish(ob4, t0, sorted(set(bad4))[:5]), O._finish(ob5, t0, sorted(set(bad5))[:5])]
 
 
+def p7_every_output_considered(binfns, consts):
+    ob = O._ob('c15_mir_every_output_brought_up_to_date', 'qmluic-cli::generate_ui_file (src/main.rs)', 'all paths that return Ok',
+               'a successful run has compared the .ui with the file on disk AND has decided about the support header (compared it too when there is support code), whatever the state of the other file: '
+               'what is on disk afterwards does not depend on what an earlier run left there')
+    t0 = time.time()
+    bad = []
+    try:
+        fn = M.find_fn(binfns, r'^generate_ui_file$')
+        it = M.Interp(fn, consts, call_model=c04.forking_try)
+        it.max_depth = 3000
+        n = 0
+        for q in it.run(max_paths=20000):
+            if q.end != 'return' or is_err(q.ret) or M.check(q.pc) == 'unsat':
+                continue
+            n += 1
+            reads = [c for c in q.calls if c.callee.split('::<')[0].endswith('fs::read')]
+            pcs = ' '.join(str(l) for l in q.pc)
+            m = re.search(r'(\S*\.1\.discr) == (\d)', pcs)
+            if not reads:
+                bad.append('Ok is returned without comparing the .ui with the file on disk')
+            if not m:
+                bad.append('Ok is returned without deciding whether there is support code to write')
+                continue
+            has_support = ('Not(' + m.group(0) + ')' not in pcs) == (m.group(2) == '1')
+            if has_support and len(reads) < 2:
+                bad.append('there is support code but Ok is returned without comparing the support header with the file on disk')
+            if has_support:
+                guards = [c for c in q.calls if c.callee.split('::<')[0].endswith('unwrap_or')]
+                writes = [c for c in q.calls if c.callee.split('::<')[0].endswith('with_output_file')]
+                if len(guards) >= 2:
+                    differ = it.leaf(guards[1].name + '.int', 'isize') == 0
+                    hdr_written = any(c.seq > guards[1].seq for c in writes)
+                    if not hdr_written:
+                        O._unsat(q.pc + [differ], bad, 'the support header on disk differs but is not rewritten')
+        if n == 0:
+            bad.append('no Ok path (stale)')
+        ob['ok_paths'] = n
+    except M.MirError as e:
+        O._finish(ob, t0, ['MIR: ' + str(e)], unknown=True)
+        ob['detail'] = 'MIR: ' + str(e)
+        return ob
+    return O._finish(ob, t0, sorted(set(bad))[:5])
+
+
 def p6_atomic_protocol(binfns, consts):
     ob = O._ob('c15_mir_temp_file_then_persist', 'qmluic-cli::with_output_file (src/main.rs)', 'all paths; every fallible step may fail',
                'create_dir_all(parent) -> NamedTempFile::new_in(parent) -> writer closure -> set_permissions -> persist(path) in this order; persist only after all earlier steps succeeded, '
@@ -365,6 +409,22 @@ def replay(workdir):
     got = set(tree(workdir)) - set(b2)
     if r.returncode != 0 or got != want:
         failed.append({'probe': 'names-under-output-directory', 'rc': r.returncode, 'expected': sorted(want), 'actual': sorted(got), 'stderr': r.stderr[-200:], 'why': 'outputs are not at the same relative path under the output directory'})
+    # edit only what lives in the header (the .ui stays byte-identical), re-run, compare with a translation from scratch
+    doc2 = doc.replace('enabled: src.checked', 'enabled: !src.checked')
+    with open(os.path.join(proj, 'MyForm.qml'), 'w') as f:
+        f.write(doc2)
+    r = run(['MyForm.qml'])
+    fresh = os.path.join(workdir, 'fresh')
+    os.makedirs(fresh)
+    with open(os.path.join(fresh, 'MyForm.qml'), 'w') as f:
+        f.write(doc2)
+    r2 = run(['MyForm.qml'], cwd=fresh)
+    try:
+        same = open(os.path.join(proj, 'uisupport_myform.h')).read() == open(os.path.join(fresh, 'uisupport_myform.h')).read()
+    except OSError:
+        same = False
+    if r.returncode != 0 or r2.returncode != 0 or not same:
+        failed.append({'probe': 'header-follows-an-edit-that-leaves-the-ui-unchanged', 'why': 'after editing only a binding expression the support header on disk is not what a translation from scratch gives'})
     b3 = tree(workdir)
     r = run(['--no-dynamic-binding', '-O', 'out2', 'sub/OtherForm.qml'])
     if set(tree(workdir)) - set(b3):
@@ -377,7 +437,7 @@ def replay(workdir):
 def run(res, args):
     fns, consts = O.load()
     binfns = M.parse_functions(M.dump_mir_bin())
-    obs = [p1_filter(binfns, consts), p2_refuses_early(binfns, consts), p3_file_names(fns, consts)] + p45_paths_and_compare(binfns, consts) + [p6_atomic_protocol(binfns, consts)]
+    obs = [p1_filter(binfns, consts), p2_refuses_early(binfns, consts), p3_file_names(fns, consts)] + p45_paths_and_compare(binfns, consts) + [p6_atomic_protocol(binfns, consts), p7_every_output_considered(binfns, consts)]
 
     def rp(ob, d):
         rep, info = replay(d)
